@@ -17,6 +17,9 @@ THEOREMS = [
     "C16_wccn_class_renaming",
     "C16_isv_sample_order_and_renaming",
     "C16_jfa_sample_order_and_renaming",
+    "C16_ivector_sample_order",
+    "C16_gmm_map_sample_order",
+    "C16_whitening_sample_order",
 ]
 CORR_OPS = ["rng_keys:equal_provenance_equal_model"]
 RULE = ("random histories of [np.random.seed(s) | np.random.normal(size=n) | fit(estimator, configuration, data, random_state)] in one "
@@ -214,8 +217,8 @@ def train(est, data, X, y, rs, stats=None, between=None):
         # threshold 10: no relative change can exceed it, so a fresh object always stops after exactly two iterations
         km = KMeansMachine(2, init_method="random", random_state=rs, max_iter=8, convergence_threshold=10.0)
         if between:
-            core.impl(lambda: km.fit(np.asarray(X) * 0.7 + 1.0))
-            core.impl(lambda: km.fit(np.asarray(X)))  # also the very data of the next fit: whatever it left behind must not matter
+            core.impl(lambda: km.fit(np.asarray(X)))  # the very data of the next fit, then other data: whatever they left behind must not matter
+            core.impl(lambda: km.fit(np.asarray(X)[::-1] * 0.7 + 1.0))
             between()
         if est == "kmeans_reuse":
             km.fit(X)
@@ -246,8 +249,34 @@ def train(est, data, X, y, rs, stats=None, between=None):
         Xin = da.from_array(X, chunks=(8, X.shape[1])) if est.endswith("_dask") else X
         mach.fit_using_array(Xin, y)
         return [mach.U, mach.D] + ([mach.V] if jfa else [])
+    if est in ("isv_bag", "jfa_bag"):
+        # per-sample statistics in a Dask bag whose partitions have unequal lengths (the last one is shorter)
+        import dask.bag as db
+        jfa = est.startswith("jfa")
+        cls = JFAMachine if jfa else ISVMachine
+        mach = cls(1, 1, ubm=ubm, em_iterations=2, random_state=rs) if jfa else cls(1, ubm=ubm, em_iterations=2, random_state=rs)
+        sts = [ubm.acc_stats(np.asarray(X)[i:i + 1]) for i in range(len(X))]
+        mach.fit(db.from_sequence(sts, npartitions=5 if len(sts) % 5 else 7), np.asarray(y))
+        return [mach.U, mach.D] + ([mach.V] if jfa else [])
+    if est == "ivector":
+        # one statistic per row; the extractor draws its initial T from the global generator as it is (it has no random_state
+        # of its own), so the caller seeds it: what is examined is the order of the training statistics
+        from bob.learn.em import IVectorMachine
+        sts = [ubm.acc_stats(np.asarray(X)[i:i + 1]) for i in range(len(X))]
+        np.random.seed(rs)
+        iv = IVectorMachine(ubm, dim_t=2, max_iterations=2, update_sigma=True)
+        iv.fit(sts)
+        return [iv.T, iv.sigma]
     if est == "wccn":
         return [WCCN().fit(X, [int(v) for v in y]).weights]
+    if est == "whitening":
+        from bob.learn.em import Whitening
+        wh = Whitening().fit(X)
+        return [wh.weights, wh.input_subtract]
+    if est == "gmm_map":
+        from bob.learn.em import GMMMachine
+        g = GMMMachine(2, trainer="map", ubm=ubm, max_fitting_steps=3, convergence_threshold=None, update_weights=True).fit(X)
+        return [g.weights, g.means, g.variances]
     raise ValueError(est)
 
 
@@ -260,6 +289,13 @@ def oracle(est, data, seed):
         again = core.impl(lambda: train(est, data, X, y, 3))
         if not isinstance(again, core.ImplError) or again.kind != base.kind:
             return {"sig": f"depends-on-history:{est}", "what": f"{est}: first fit raised {base!r}, an identical second fit gave {again!r}"}
+        if "LinAlg" not in base.kind and est not in ("kmeans_reuse", "gmm_shared_trainer", "kmeans_seeded"):
+            # ... and in the same way for every order of the samples (a numerical breakdown may legitimately come and go with rounding)
+            for _ in range(4):
+                perm = r.permutation(len(X))
+                p = core.impl(lambda: train(est, data, X[perm], y[perm], 3))
+                if not isinstance(p, core.ImplError):
+                    return {"sig": f"depends-on-sample-order:{est}", "what": f"{est}: training raises {base!r} for one order of the samples and returns a model for another", "perm": perm}
         return None
     # sample order (samples stay with their labels; ISV/JFA from arrays: frames of one class stay in their class)
     perm = r.permutation(len(X)) if est not in ("kmeans_reuse", "gmm_shared_trainer") else np.arange(len(X))  # seeded init: row order is D14's business
@@ -267,8 +303,10 @@ def oracle(est, data, seed):
     if isinstance(p, core.ImplError) or not all(core.close(np.asarray(a, float), np.asarray(b, float), 1e-8, 1e-9) for a, b in zip(base, p)):
         sig = KNOWN_SIG if est == "kmeans_seeded" else f"depends-on-sample-order:{est}"
         return {"sig": sig, "what": f"{est}: training on a permutation of the rows gives a different model", "perm": perm}
+    if est == "ivector":
+        return None  # no random_state of its own: the history clause does not apply (C16_global_as_is_depends)
     # class renaming by a permutation of the ids
-    if est in ("isv", "isv_dask", "jfa", "jfa_dask", "wccn") + LAZY:
+    if est in ("isv", "isv_dask", "jfa", "jfa_dask", "wccn", "isv_bag", "jfa_bag") + LAZY:
         ren = r.permutation(3)
         q = core.impl(lambda: train(est, data, X, ren[y], 3))
         if isinstance(q, core.ImplError) or not all(core.close(np.asarray(a, float), np.asarray(b, float), 1e-8, 1e-9) for a, b in zip(base, q)):
@@ -289,15 +327,15 @@ def oracle(est, data, seed):
 def search(ctx):
     fails, seen = [], set()
     data = datasets(ctx.seed + 1)
-    ests = ["kmeans_explicit", "kmeans_seeded", "gmm_explicit", "isv", "isv_dask", "jfa", "jfa_dask", "wccn", "isv_lazy", "jfa_lazy", "kmeans_reuse", "gmm_shared_trainer"]
-    for i in range(ctx.budget(24, 240)):
+    ests = ["kmeans_explicit", "kmeans_seeded", "gmm_explicit", "isv", "isv_dask", "jfa", "jfa_dask", "wccn", "isv_lazy", "jfa_lazy", "kmeans_reuse", "gmm_shared_trainer", "isv_bag", "jfa_bag", "ivector", "whitening", "gmm_map"]
+    for i in range(ctx.budget(34, 240)):
         est = ests[i % len(ests)]
         ctx.count("search:" + est)
         ctx.case(["s", est, i], nontrivial=True)
-        f = oracle(est, data[i % 2], ctx.seed * 1000 + i)
+        f = oracle(est, data[(i // len(ests)) % 2], ctx.seed * 1000 + i)
         if f and f["sig"] not in seen:
             seen.add(f["sig"])
-            f["input"] = {"estimator": est, "dataset_seed": ctx.seed + 1, "dataset": i % 2, "oracle_seed": ctx.seed * 1000 + i}
+            f["input"] = {"estimator": est, "dataset_seed": ctx.seed + 1, "dataset": (i // len(ests)) % 2, "oracle_seed": ctx.seed * 1000 + i}
             fails.append(f)
     return fails
 
